@@ -235,7 +235,11 @@ class LintedDir:
                         if v_dict.get("fixes", []):
                             # We're changing a violating with fixes, to one without,
                             # so we need to increment the cache value.
-                            self.num_unfixable_lint_errors += 1
+                            # NOTE: Warnings aren't counted as unfixable errors
+                            # elsewhere (they never affect the exit code), so
+                            # don't start counting them here either.
+                            if not v_dict.get("warning"):
+                                self.num_unfixable_lint_errors += 1
                             v_dict["fixes"] = []
             # Filter the full versions if present.
             for linted_file in self.files:
